@@ -334,8 +334,12 @@ func EmaK(a S, p int, k float64) S {
 	return o
 }
 
-// Ema is the EMA with the standard smoothing 2/(p+1).
-func Ema(a S, p int) S { return EmaK(a, p, 2/float64(p+1)) }
+// EmaSmoothing is the smoothing constant of the exponential averages the references are built from (the library's
+// Ema.Smoothing, 2 by default; a unit that sets the exported field on the real objects sets this too).
+var EmaSmoothing = 2.0
+
+// Ema is the EMA with the multiplier smoothing/(p+1), smoothing 2 unless a unit says otherwise.
+func Ema(a S, p int) S { return EmaK(a, p, EmaSmoothing/float64(p+1)) }
 
 // Rma is Wilder's moving average: seed SMA(p), then (prev*(p-1)+x)/p.
 func Rma(a S, p int) S {
